@@ -80,7 +80,8 @@ type HarnessSummary struct {
 	ViolCount   map[string]int
 	Asserts     map[string]int
 	BySolver    map[string]int
-	MaxInputs   int // most symbolic inputs on one path
+	MaxInputs   int         // most symbolic inputs on one path
+	Probed      map[int]int // sizes / durations taken from constants of the code under test (vfProbe*) -> paths
 	Unknown     map[string]int
 	Reached     map[string]int
 	Forks       map[string]int
@@ -203,6 +204,12 @@ func (s *HarnessSummary) absorb(r *RunResult) {
 	}
 	for k, v := range r.BySolver {
 		s.BySolver[k] += v
+	}
+	for _, v := range r.Probed {
+		if s.Probed == nil {
+			s.Probed = map[int]int{}
+		}
+		s.Probed[v]++
 	}
 	if r.SymInputs > s.MaxInputs {
 		s.MaxInputs = r.SymInputs
